@@ -16,7 +16,8 @@ Variable kids : xml -> list kid.
 Variable mime : bytes -> mtype.
 Variable mime_bytes : mtype -> bytes.
 Variable rdf0 : bytes.
-Variable mask : xml -> xml.
+Variable proj : Type.
+Variable mask : xml -> proj.
 Hypothesis par_ser : forall x, par (ser x) = x.
 Notation container := (container bytes).
 Notation document := (document xml bytes).
@@ -30,7 +31,7 @@ Notation FsOK := (FsOK bytes kid).
 Notation disk_lookup := (disk_lookup bytes kid).
 Notation disk_entries := (disk_entries bytes kid).
 Notation d_tree := (d_tree xml bytes kid par FIXED).
-Notation view := (view xml bytes kid par mask).
+Notation view := (view xml bytes kid par proj mask).
 Notation d_clone := (d_clone xml bytes kid ser par FIXED).
 
 Lemma view_of_obs : forall fs fs' (d d' : document),
